@@ -80,9 +80,9 @@ class Interp(Engine):
 
     def ev_List(self, n):
         items = [self.ev(e) for e in n.elts]
-        if all(isinstance(i, Conc) for i in items):
+        if self.spec_mode and all(isinstance(i, Conc) for i in items):
             return Conc([i.v for i in items])
-        return lib.make_list(self, items)
+        return lib.make_list(self, items)   # a list display creates a fresh mutable list
 
     def ev_JoinedStr(self, n):
         parts = []
@@ -144,6 +144,7 @@ class Interp(Engine):
         return acc
 
     want_truth = False
+    no_let = bool(__import__("os").environ.get("PYVC_NO_LET"))
 
     def ev_UnaryOp(self, n):
         v = self.ev(n.operand)
@@ -231,7 +232,7 @@ class Interp(Engine):
 
     def name_value(self, hint, val):
         """let-binding: name a compound term by a fresh constant (keeps VCs small and E-matching effective)"""
-        if self.spec_mode or not isinstance(val, P) or val.ty.kind == "bv":
+        if self.spec_mode or not isinstance(val, P) or val.ty.kind == "bv" or self.no_let:
             return val
         t = val.term
         if not z3.is_app(t) or t.num_args() == 0 or all(c.num_args() == 0 for c in t.children() if z3.is_app(c)) \
